@@ -13,7 +13,7 @@ from .core import Case, cZ, cD, cOD, clist, cbool, copt, cstr
 ID = "C16"
 PROPS_FILE = "Props/C16.v"
 IMPORTS = "From Verde Require Import Model.Coordinates Model.CoordCases Model.Hull Model.ProjectGrid."
-SHARD = 40
+SHARD = 10
 RULE = ("convexhull_mask: (1) integer-lattice clouds of 3..15 points (collinear runs, duplicates of hull vertices, interior points) "
         "queried on the quarter lattice incl. every data point, edge midpoints and points one quarter step either side of the hull; "
         "(2) random float clouds queried at random points and at points rounded onto hull edges (those closer to the hull boundary than "
@@ -250,6 +250,29 @@ def affine_projection(sx, ox, sy, oy):
                       lambda e, n: ((e - ox) / sx, (n - oy) / sy), affine=(sx, ox, sy, oy))
 
 
+class AffineFactory:
+    """picks dyadic affine coefficients once the grid is known, keeping max|coordinate| / min(grid step) <= 2^17 over
+    BOTH axes: beyond ~1e6 the un-normalised Delaunay triangulation inside Linear/Cubic loses data points
+    (finding C16-interpolator-large-offset: reported, not generated)"""
+
+    def __init__(self, rnd):
+        self.rnd = rnd
+
+    def make(self, east, north):
+        rnd = self.rnd
+        de, dn = east[1] - east[0], north[1] - north[0]
+        for attempt in range(200):
+            sx = rnd.choice([0.5, 1.0, 2.0, 4.0, 1000.0, -2.0])
+            sy = rnd.choice([0.5, 1.0, 2.0, 0.25, 1000.0, -1.0])
+            ox = rnd.choice([0.0, 1.0, -3.5, 2.0 ** 12 * abs(sx), -(2.0 ** 14) * abs(sx)])
+            oy = rnd.choice([0.0, -3.0, 0.25, -(2.0 ** 12) * abs(sy), 2.0 ** 14 * abs(sy)])
+            big = max(np.abs(sx * east + ox).max(), np.abs(sy * north + oy).max())
+            step = min(abs(sx) * de, abs(sy) * dn)
+            if big / step <= 2.0 ** 17:
+                return affine_projection(sx, ox, sy, oy)
+        return affine_projection(1.0, 0.0, 1.0, 0.0)
+
+
 NONLINEAR = {
     "cubic-separable": (lambda e, n: (e + e ** 3 / 100, n + n ** 3 / 100), True),
     "mercator-like": (lambda e, n: (e * 1000.0, 1000.0 * np.arcsinh(np.tan(np.radians(10 * n)))), True),
@@ -289,6 +312,8 @@ def pg_cases(vd, rnd, nprng, proj, separable, method, antialias, argkind, kind, 
     dims = rnd.choice([("northing", "easting"), ("lat", "lon"), ("y", "x")])
     holes = rnd.choice([0, 0, 1, 2, 4])
     da, east, north, v = make_grid(rnd, nprng, ny, nx, name, dims, holes, smooth=rnd.random() < 0.3)
+    if isinstance(proj, AffineFactory):
+        proj = proj.make(east, north)
     # what the projection will produce (to choose sensible region / spacing arguments)
     valid = ~np.isnan(v)
     EE, NN = np.meshgrid(east, north)
@@ -305,7 +330,13 @@ def pg_cases(vd, rnd, nprng, proj, separable, method, antialias, argkind, kind, 
         fw, fe, fs, fn = [rnd.choice([-0.25, 0.0, 0.125, 0.3]) for _ in range(4)]
         kwargs["region"] = (w + fw * (e - w), e - fe * (e - w), s + fs * (n - s), n - fn * (n - s))
     proj.calls = []
-    out = vd.project_grid(da, proj, method=method, antialias=antialias, **kwargs)
+    try:
+        out = vd.project_grid(da, proj, method=method, antialias=antialias, **kwargs)
+    except Exception as ex:      # a valid call must not raise: reported as a violation with the input as replay
+        inp = {"fn": "project_grid", "projection": proj.name, "method": method, "antialias": antialias, "part": "main",
+               "kwargs": {k: list(x) if isinstance(x, tuple) else x for k, x in kwargs.items()}, "name": name, "dims": list(dims),
+               "easting": east.tolist(), "northing": north.tolist(), "values": [[None if np.isnan(x) else float(x) for x in r] for r in v]}
+        return [Case(inp, {"raised": "%s: %s" % (type(ex).__name__, str(ex)[:300])}, "Vboth", "# projection: %s" % proj.name, kind)]
     calls = proj.calls
     if len(calls) != 1:
         le = ln = pe = pn = np.zeros(0)
@@ -405,18 +436,12 @@ def generate(tier, seed):
         for (m, aa) in combos:
             r = rnd.random()
             if r < 0.5:
-                sx = rnd.choice([0.5, 1.0, 2.0, 4.0, 1000.0, -2.0])
-                sy = rnd.choice([0.5, 1.0, 2.0, 0.25, 1000.0, -1.0])
-                # offsets up to 2^14 projected grid steps (1.6e7 in absolute terms): beyond ~1e6 steps the
-                # un-normalised Delaunay triangulation of Linear/Cubic degrades (finding C16-interpolator-large-offset)
-                ox = rnd.choice([0.0, 1.0, -3.5, 2.0 ** 12 * abs(sx), -(2.0 ** 14) * abs(sx)])
-                oy = rnd.choice([0.0, -3.0, 0.25, -(2.0 ** 12) * abs(sy), 2.0 ** 14 * abs(sy)])
-                proj, sep = affine_projection(sx, ox, sy, oy), True
+                proj, sep = AffineFactory(rnd), True
             else:
                 nm = rnd.choice(sorted(NONLINEAR))
                 f, sep = NONLINEAR[nm]
                 proj = Projection(nm, f)
-            ak = "none" if (proj.affine is not None and not aa and rnd.random() < 0.6) else rnd.choice(argkinds)
+            ak = "none" if (isinstance(proj, AffineFactory) and not aa and rnd.random() < 0.6) else rnd.choice(argkinds)
             cases += pg_cases(vd, rnd, nprng, proj, sep, m, aa, ak, "project_grid")
     # (6) the blocked mean shrinks the interpolator's hull (only when recorded as a known finding)
     if shrink_known():
